@@ -13,6 +13,7 @@ import traceback
 ROOT = os.path.dirname(os.path.dirname(os.path.abspath(__file__)))
 
 GLOBAL_ASSUMPTIONS = [
+    "generator FUNCTIONS (yield) are run to completion when called and their values handed over as a list (sound for the generators of this repository, whose bodies have no effects besides yielding); generator EXPRESSIONS are evaluated when first iterated",
     "engine: the pyvc symbolic executor and its encoding of the Python subset (pyvc/*.py) are trusted; guarded by canaries, the CPython cross-check and seeded mutants, not verified",
     "solvers: z3 5.1 (in process) and cvc5 1.0.3 (CLI, only for queries z3 leaves unknown) are trusted",
     "machine arithmetic treated as mathematical: Python float -> SMT Real (no rounding, no nan/inf); Python int -> SMT Int (exact)",
@@ -120,6 +121,7 @@ def check(prop, tier, seed, a):
         json.dump(rep, open(os.path.join(ROOT, path), "w"), indent=1, default=str)
         violations.append((name, path, rep))
     missing = [n for n in baseline if n not in obs]
+    bounded_crash = None
     # CPython cross-check of the proofs (sampled inputs through the real function, same clause text)
     cross_n, disagree = 0, []
     for cname, m in meta.items():
@@ -133,8 +135,14 @@ def check(prop, tier, seed, a):
     bounded = None
     if cfg.get("bounded"):
         bm = importlib.import_module(cfg["bounded"])
-        bounded = bm.run(tier=tier, seed=seed, contracts=contracts)
-        for v in bounded.get("violations", []):
+        try:
+            bounded = bm.run(tier=tier, seed=seed, contracts=contracts)
+        except Exception:
+            # the stand-in itself crashed (it runs the real code; a changed tree can break the harness' own clean-up):
+            # a checker error unless the proof obligations already decided the run
+            bounded_crash = traceback.format_exc()
+            bounded = None
+        for v in (bounded or {}).get("violations", []):
             kf = match_finding(open_findings, v.get("obligation", ""), v)
             if kf is not None:
                 known_hits.append((kf, v.get("obligation", "bounded")))
@@ -162,7 +170,13 @@ def check(prop, tier, seed, a):
     n_b = sum(1 for o in obs.values() if o.get("bound"))
     print(f"{prop}: obligations={n_ob - n_b}+{n_b} bounded-structure discharged={n_dis} undecided={len(undecided)} violations={len(violations)} "
           f"known={len(seen)} bounded={'%d evaluations' % bounded['evaluations'] if bounded else 'none'} crosscheck={cross_n} wall={wall:.1f}s")
+    if bounded_crash and not violations:
+        print(bounded_crash)
+        print(f"CHECKER-ERROR property={prop} bounded stand-in crashed")
+        return 3
     if violations:
+        if bounded_crash:
+            print("note: the bounded stand-in crashed on this tree: " + bounded_crash.strip().splitlines()[-1])
         for name, path, rep in violations:
             tail = "" if rep.get("reproduced") else " no-failing-input-found"
             print(f"  failed obligation: {name}")
